@@ -1,5 +1,6 @@
 import MtailVerif.Model.Fold
 import MtailVerif.Generated.Fold
+import MtailVerif.Proofs.Skeletons
 /-! # C02 — Constant folding never changes a program's results -/
 namespace MtailVerif.C02
 open MtailVerif.Fold
@@ -200,5 +201,15 @@ example : (fold toyOps 0 true (.bin .mod (.int 7) (.float 2))).toOption.map (eva
     = some (some (.f 1)) := by decide
 example : (fold toyOps 0 false (.bin .mod (.int 7) (.float 2))).toOption.map (eval toyOps ⟨fun _ => 0, fun _ => 0⟩ ·)
     = some (some (.f 0)) := by decide
+
+/-! ### regenerated control skeletons (written by lib/wire_skeletons.py) -/
+/-- Obligations over regenerated facts: the functions this property's model stands for have the
+    control skeleton the model was written against (`Proofs/Skeletons.lean`, one `rfl` per function
+    or clause; DESIGN.md §11.6a) -/
+theorem exec_skeletons : Skeletons.ExecShape := Skeletons.exec_shape
+theorem compare_skeletons : Skeletons.CompareShape := Skeletons.compare_shape
+theorem checkerAfter_skeletons : Skeletons.CheckerAfterShape := Skeletons.checkerAfter_shape
+theorem optBefore_skeletons : Skeletons.OptBeforeShape := Skeletons.optBefore_shape
+theorem optAfter_skeletons : Skeletons.OptAfterShape := Skeletons.optAfter_shape
 
 end MtailVerif.C02
